@@ -132,11 +132,33 @@ def run(ctx):
 
     # ---- R3 plumbing
     gh = fb.fn(TC + "GetPackageFromTecmpHeader")
+    by_helper = set()  # (converter, setter) rows of the payload table that the header helper satisfies through a parameter
     for row in spec["tecmp_header"]:
         cs = list(gh.calls(row["setter"]))
         ok = len(cs) == 1 and {c for c in depends(gh, cs[0]["args"][0])[1] if c.startswith(TH + "::get")} == {row["source"]} and \
             facts.flows_unchanged(gh, cs[0]["args"][0], row["source"])
-        ls = facts.lossy_step(gh, cs[0]["args"][0], row["source"]) if ok else None
+        handed = False
+        if not ok and len(cs) == 1 and len(gh.params) > 1:
+            # the value is handed in: each converter passes what the table lists for it — the header's field, or the payload's own where
+            # the payload table overrides the attribute for that converter
+            ax = strip_all_casts(facts.expand(gh, cs[0]["args"][0]))
+            pd_ = [q["decl"] for q in gh.params]
+            if ax.get("k") == "ref" and ax.get("dk") == "param" and ax.get("decl") in pd_[1:]:
+                i_ = pd_.index(ax["decl"])
+                sites = [(h, facts.effective_call(c)) for h in fb.all_functions() if h.body is not None for c in h.calls() if fb.resolve_call(c) is gh]
+                good = bool(sites)
+                for h, c in sites:
+                    over = [r2 for r2 in spec["tecmp_payload"].get(h.name, []) if r2["setter"] == row["setter"]]
+                    src = over[0]["source"] if over else row["source"]
+                    a_ = c["args"][i_] if len(c.get("args", [])) > i_ else None
+                    got_ = {x for x in depends(h, a_)[1] if x.startswith("TECMP::") and "::get" in x and not x.endswith("::get")} if a_ is not None else set()
+                    if got_ == {src} and facts.flows_unchanged(h, a_, src) and not list(h.calls(row["setter"])):
+                        if over:
+                            by_helper.add((h.name, row["setter"]))
+                    else:
+                        good = False
+                ok = handed = good
+        ls = facts.lossy_step(gh, cs[0]["args"][0], row["source"]) if ok and not handed else None
         if ls:
             res.bad("C15-R3", "header:%s:value-kept" % row["setter"].split("::")[-1], cs[0].get("loc"), "%s: values outside that type's range arrive changed" % ls)
         res.check(ok, "C15-R3", "header:%s" % row["setter"].split("::")[-1], cs[0].get("loc") if cs else gh.loc, "%s <- %s" % (row["setter"].split("::")[-1], row["source"]),
@@ -161,6 +183,8 @@ def run(ctx):
                     if lossy and not row.get("narrows"):
                         res.bad("C15-R3", "%s:%s[%d]:value-kept" % (fname.split("::")[-1], row["setter"].split("::")[-1], arg), c.get("loc"),
                                 "%s: %s — values outside that type's range arrive changed (a serial number >= 2^31 turns negative, a long length is cut)" % (fname, lossy))
+            if not cs and (fname, row["setter"]) in by_helper:
+                ok = True  # set once, by the header helper, from the source this row lists
             res.check(ok, "C15-R3", "%s:%s[%d]" % (fname.split("::")[-1], row["setter"].split("::")[-1], arg), cs[0].get("loc") if cs else f.loc,
                       "%s arg %d <- %s" % (row["setter"].split("::")[-1], arg, row["source"].split("::")[-1]),
                       "%s: argument %d of %s comes from %s, expected exactly %s" % (fname, arg, row["setter"], sorted(got or []), row["source"]))
